@@ -182,29 +182,52 @@ CLAIMS = {
              'and passed to the model as data.',
         design='DESIGN.md section 7, C12'),
     'C13': dict(
-        technique='Coq invariant proof over all histories (TTL exactness after every update/cleanup, cache lower bound, ordered '
-                  'mode sortedness) + differential check under a controlled clock',
-        text='C13_expiry_exact (after cleanup() or any accepted update() at time now, for every TTL and both modes, every '
-             'remaining track is younger than the TTL and every track removed by expiry had reached it), C13_no_ttl_no_expiry, '
-             'C13_invariants (unique keys, oldest_timestamp cache is a lower bound, ordered mode implies sorted), '
-             'C13_oracle_is_spec are proved in Coq by induction over unbounded histories. ' + TIE,
-        note=BASE_NOTE + 'explicit clock as in C12.',
+        technique='Coq invariant proof over all histories with subscriber callbacks that may raise (TTL exactness after every '
+                  'update/cleanup that returns, cache lower bound, ordered mode sortedness; structural invariants in every '
+                  'state), refutation witnesses for the open finding + differential check under a controlled clock with '
+                  'raising subscribers',
+        text='Over the general model (callbacks return or raise; pop_track swallows KeyError after deleting the track; every '
+             'other exception escapes through insert/update/cleanup as in the Python): C13_expiry_exact (after every cleanup() '
+             'or update() at time now that RETURNS, for every TTL, both modes and every behaviour of the subscribers, every '
+             'remaining track is younger than the TTL and every track removed by expiry had reached it -- in every state '
+             'reached while no exception of a subscriber has left update()/cleanup(); a KeyError of a DELETED subscriber '
+             'never does), C13_never_removes_fresh (every operation from every state, also one left by an exception: only '
+             'tracks that reached the TTL are removed; the structural invariants hold afterwards), C13_no_ttl_no_expiry, '
+             'C13_invariants / C13_structural_invariants, C13_quiet_subscribers_give_trk_step, C13_oracle_is_spec are proved in '
+             'Coq by induction over unbounded histories. C13_statement_any_state (the same without the guard) stays visible and '
+             'is REFUTED (C13_refuted_after_callback_exception, C13_refuted_after_aborted_cleanup: after a CREATED subscriber '
+             'raised, or a DELETED subscriber raised a non-KeyError inside cleanup(), oldest_timestamp is no lower bound any '
+             'more and a later cleanup() returns early leaving an expired track) -- open known finding. ' + TIE,
+        note=BASE_NOTE + 'explicit clock as in C12; what the callbacks do is data of each operation (rules carried by the '
+             'history); callbacks that call back into the tracker are outside the model; the iteration order of the set of '
+             'expired MMSIs is a parameter of the model (the theorems hold for every order, the check reads it off the '
+             "implementation's DELETED deliveries).",
         design='DESIGN.md section 7, C13'),
     'C14': dict(
         technique='Coq proof over all reachable tracker states and all n (top-n predicate, newest-first order in unordered '
                   'mode, using the sortedness invariant in ordered mode) + differential check',
-        text='C14_top_n (for every reachable state and n >= 0 the result has min(n, |tracks|) distinct tracks of the table and '
-             'nothing left out is newer; unordered mode: sorted newest first) and the oracle-equals-spec lemmas are proved in '
-             'Coq. ' + TIE,
-        note=BASE_NOTE + 'explicit clock as in C12.',
+        text='C14_top_n (for every state reachable by any history -- whatever the subscriber callbacks did, also after '
+             'operations left by their exceptions -- and n >= 0 the result has min(n, |tracks|) distinct tracks of the table '
+             'and nothing left out is newer; unordered mode: sorted newest first) and the oracle-equals-spec lemmas are proved '
+             'in Coq. ' + TIE,
+        note=BASE_NOTE + 'explicit clock as in C12; callbacks may raise (general model of Model/Tracker.v), callbacks that '
+             'call back into the tracker are outside the model.',
         design='DESIGN.md section 7, C14'),
     'C15': dict(
         technique='Coq proof that the per-MMSI event trace of every history stays in (CREATED UPDATED* DELETED)* with alive = '
-                  'tracked (induction over histories) + differential check with callbacks on all three events',
-        text='C15_lifecycle (sp_alive m (all events) = Some (tracked m) after every history), C15_events_of_a_step (the exact '
-             'events of each step, per MMSI, in order), C15_rejected_emits_nothing are proved in Coq. ' + TIE,
+                  'tracked, for subscriber callbacks that may raise, and of who receives each event (induction over '
+                  'histories) + differential check with callbacks on all three events and raising subscribers',
+        text='Over the general model (callbacks return or raise): C15_lifecycle (sp_alive m (all propagate calls) = Some '
+             '(tracked m) after every history, whatever the subscribers do), C15_events_of_a_step (the exact events of each '
+             'step, per MMSI, in order, also for operations left by an exception), C15_rejected_emits_nothing, C15_deliveries '
+             '(each propagate call goes to the subscribers of its event in registration order up to and including the first '
+             'one that raises), C15_delivery_reaches / _truncated / _complete, C15_exception_origin (an operation raises the '
+             'ValueError of a rejected update or what the last callback it invoked raised; a KeyError of a DELETED callback '
+             'never leaves) are proved in Coq. ' + TIE,
         note=BASE_NOTE + 'subscriber list modelled as "always append" (attach never deduplicates, exercised in the '
-             'correspondence only); expiry events of one step are compared as a multiset.',
+             'correspondence only); the life cycle is judged on the propagate calls, i.e. on subscribers registered in front of '
+             'any subscriber that raises (a subscriber behind a raising one does not receive the event -- C15_delivery_truncated; '
+             'the correspondence compares every callback invocation in order).',
         design='DESIGN.md section 7, C15'),
     'C03': dict(
         technique='Coq proof (slot independence + per-slot invariant, induction over the schedule) that both reassembly loops '
